@@ -86,6 +86,15 @@ fn main() {
                 _ => { eprintln!("unknown job {job}"); std::process::exit(2); }
             }
         }
+        Some("tokcap") => {
+            // debugging aid: lh tokcap <flags> <strict 0|1> '<html text>' [cut ...]
+            let flags: u8 = args.get(2).and_then(|s| s.parse().ok()).unwrap_or(31);
+            let strict = args.get(3).map(|s| s == "1").unwrap_or(false);
+            let cuts: Vec<usize> = args.iter().skip(5).filter_map(|s| s.parse().ok()).collect();
+            let (toks, res) = tokcap::capture(args.get(4).map(|s| s.as_bytes()).unwrap_or(b""), &cuts, strict, flags);
+            for t in toks { println!("{t}"); }
+            println!("res {res}");
+        }
         Some("h5") => {
             // debugging aid: lh h5 '<html text>'
             let (toks, fb) = h5::run(args.get(2).map(|s| s.as_str()).unwrap_or(""));
